@@ -535,7 +535,7 @@ func c02Gen(r *Run) {
 		panic(err)
 	}
 	defer eng.Destroy()
-	c := &c02Engine{c01: &c01Engine{eng: eng}}
+	c := &c02Engine{c01: &c01Engine{eng: eng, emptyPrev: true}}
 	thorough := r.Tier == "thorough"
 	budget := 45 * time.Second
 	if thorough {
@@ -906,7 +906,7 @@ func c02Replay(r *Run, ops []map[string]interface{}) {
 		panic(err)
 	}
 	defer eng.Destroy()
-	c := &c02Engine{c01: &c01Engine{eng: eng}}
+	c := &c02Engine{c01: &c01Engine{eng: eng, emptyPrev: true}}
 	for _, op := range ops {
 		if op["op"] == "query" && c.c01.graph == "" {
 			c.c01.reset(map[string]interface{}{})
